@@ -105,8 +105,15 @@ class C03(props.Prop):
             seen[rec.strategy_inputs[0][2]] = 0
         spans = rec.reduce_spans
         prev = rec.strategy_inputs[0][2] if rec.strategy_inputs else None
+        # simplification (set of substitution keys) behind every step
+        fp_of_step = {}
+        for a in rec.applies:
+            if len(a) > 8:
+                fp_of_step.setdefault((a[7], a[6]), []).append((a[0], a[8]))
+        adopted_fps = set()
         for k, w in enumerate(writes, 1):
             d = w['sdig']
+            fp = w.get('ddmin_task')
             phase = 'ddmin' if (strat == 'ddmin' or (
                 strat == 'hybrid' and not any(
                     s[0] == 'hierarchical' and s[1] <= w['seq0']
@@ -115,10 +122,20 @@ class C03(props.Prop):
                             rec, w)) else 'hierarchical'
             if d in seen:
                 noop = d == prev
-                if noop and phase == 'ddmin':
+                if noop and phase == 'ddmin' and (fp is None
+                                                  or fp not in adopted_fps):
                     # stale group whose nodes have vanished: not a proposal
                     # for the then-current input
                     v.probes['ddmin_vacuous_group_adopted'] += 1
+                elif noop and phase == 'ddmin':
+                    v.violate(
+                        'revisit', 'C03:revisit:no-op:ddmin-group-adopted-twice',
+                        f'adopted input #{k} equals its predecessor: a group '
+                        f'of simplifications that had already been adopted '
+                        f'was proposed and adopted again (the round went '
+                        f'backwards)',
+                        write_index=k, input=rec.text(w['dig'])[:300])
+                    return True
                 else:
                     by_step = {}
                     for a in rec.applies:
@@ -145,6 +162,8 @@ class C03(props.Prop):
                         input=rec.text(w['dig'])[:300])
                     return True
             seen.setdefault(d, k)
+            if fp is not None:
+                adopted_fps.add(fp)
             if w['completed']:
                 prev = d
         return False
